@@ -614,6 +614,116 @@ fn driver_layer(run: &Run) {
     run.extra("driver_layer", serde_json::json!({"cases": cases.load(std::sync::atomic::Ordering::Relaxed), "held_sets": held_sets.len(), "ranges": gaps.len(), "lists_per_case": (1u32 << n) - 1}));
 }
 
+/// Driver layer, full node: a real node-flavour SwarmDriver whose store holds `cap` records and is full, a neighbour's list
+/// of more new keys than the parallel limit (so that some stay queued), then fetched records handed to the real
+/// `PutLocalRecord` handler one after the other — stored while nearer than the farthest held record, refused (MaxRecords)
+/// beyond it. From the first refusal on the node knows it is full: no `KeysToFetchForReplication` event may name a key
+/// farther away than the farthest record held at that moment.
+fn driver_layer_full_node(run: &Run) {
+    use crate::driver_rig::DriverRig;
+    use ant_networking::verif_hooks::{LocalSwarmCmd, UnifiedRecordStore};
+    let n = 26usize;
+    let u = build_universe(n, "c08-full", true);
+    let value = |i: usize| -> Vec<u8> { [&[0x91u8, 1][..], format!("c08 full {i}").as_bytes()].concat() };
+    let mut cases = 0u64;
+    // held sets (ranks), and which of the in-flight keys arrives first
+    let held_sets: Vec<Vec<usize>> = vec![vec![2, 5, 8], vec![0, 1, 2], vec![3, 10, 15]];
+    for held in &held_sets {
+        let farthest_held = *held.iter().max().unwrap();
+        for first_arrival in [22usize, farthest_held + 1, 0, 9] {
+            if held.contains(&first_arrival) {
+                continue;
+            }
+            let root = crate::c01::fresh_scratch("c08-full");
+            let mut rig = DriverRig::new_node(1, &root);
+            for (i, h) in u.holders.iter().enumerate() {
+                if !rig.driver.verif_add_peer(*h, format!("/ip4/127.0.0.1/udp/{}/quic-v1", 43000 + i).parse().unwrap()) {
+                    run.machinery_error("C08 full-node layer: routing table insert failed");
+                }
+            }
+            match rig.store() {
+                UnifiedRecordStore::Node(s) => s.verif_set_max_records(held.len()),
+                UnifiedRecordStore::Client(_) => run.machinery_error("C08 full-node layer: client store"),
+            }
+            for i in held {
+                let record = libp2p::kad::Record { key: u.keys[*i].clone(), value: value(*i), publisher: None, expires: None };
+                let _ = rig.handle_local(LocalSwarmCmd::PutLocalRecord { record });
+                rig.settle();
+            }
+            rig.drain_events();
+            rig.events.clear();
+            let list: Vec<(NetworkAddress, RecordType)> = (0..n).filter(|i| !held.contains(i)).map(|i| (addr(&u.keys[i]), RecordType::Chunk)).collect();
+            let driver = &mut rig.driver;
+            let holder = NetworkAddress::from_peer(u.holders[0]);
+            let _ = rig.exec.capture(None, "replicate", || driver.verif_handle_replicate(holder, list));
+            rig.settle();
+            rig.drain_events();
+            let mut in_flight: BTreeSet<usize> = BTreeSet::new();
+            let mut take_events = |rig: &mut DriverRig, in_flight: &mut BTreeSet<usize>| -> Vec<usize> {
+                let mut fresh = vec![];
+                while let Some(ev) = rig.events.pop_front() {
+                    if let NetworkEvent::KeysToFetchForReplication(ks) = ev {
+                        for (_, k) in ks {
+                            if let Some(i) = u.keys.iter().position(|x| *x == k) {
+                                in_flight.insert(i);
+                                fresh.push(i);
+                            }
+                        }
+                    }
+                }
+                fresh
+            };
+            let _ = take_events(&mut rig, &mut in_flight);
+            if in_flight.len() < 20 {
+                run.machinery_error(&format!("C08 full-node layer: only {} fetches were started for a list of {} new keys", in_flight.len(), n - held.len()));
+            }
+            // arrivals: the chosen one first, then the rest of what is in flight, nearest first
+            let mut order: Vec<usize> = vec![first_arrival];
+            order.extend(in_flight.iter().cloned().filter(|i| *i != first_arrival));
+            let mut known_full = false;
+            let mut held_now: BTreeSet<usize> = held.iter().cloned().collect();
+            let desc = serde_json::json!({"engine": "driver-layer/full-node", "capacity": held.len(), "held_ranks": held, "advertised": n - held.len(), "first_arrival_rank": first_arrival});
+            run.case(desc.to_string().as_bytes(), true);
+            cases += 1;
+            for (step, i) in order.iter().enumerate().take(8) {
+                if !in_flight.contains(i) {
+                    continue;
+                }
+                let record = libp2p::kad::Record { key: u.keys[*i].clone(), value: value(*i), publisher: None, expires: None };
+                let r = rig.handle_local(LocalSwarmCmd::PutLocalRecord { record });
+                rig.settle();
+                rig.drain_events();
+                let listed: BTreeSet<usize> = match rig.store() {
+                    UnifiedRecordStore::Node(s) => (0..n).filter(|x| s.verif_contains(&u.keys[*x])).collect(),
+                    _ => BTreeSet::new(),
+                };
+                if r.is_err() || !listed.contains(i) {
+                    known_full = true; // the put was refused: from here on the fetcher has been told the node is full
+                }
+                held_now = listed;
+                in_flight.remove(i);
+                let fresh = take_events(&mut rig, &mut in_flight);
+                if known_full {
+                    let far = held_now.iter().max().cloned().unwrap_or(n);
+                    for f in fresh {
+                        if f > far {
+                            run.violation(
+                                "not-beyond-farthest-when-full",
+                                "driver-layer/after-a-refused-put",
+                                format!("after arrival {step} (rank {i}, refused or evicting on a full store) a fetch was started for rank {f}, farther than the farthest held record (rank {far}) ({desc})"),
+                                desc.clone(),
+                            );
+                        }
+                    }
+                }
+            }
+            drop(rig);
+            let _ = std::fs::remove_dir_all(&root);
+        }
+    }
+    run.extra("driver_layer_full_node", serde_json::json!({"cases": cases, "keys": n}));
+}
+
 pub fn main(tier: Option<&str>) {
     let run = Run::new("C08", "model_checking", tier);
     run.rule(
@@ -643,5 +753,6 @@ pub fn main(tier: Option<&str>) {
         vec![Sys::new(ub, true)],
     );
     driver_layer(&run);
+    driver_layer_full_node(&run);
     run.finish();
 }
